@@ -59,7 +59,9 @@ Definition caught_as_parse (e : exn) : bool :=
 
 Definition read_content (st : rstate) (length_z : Z) (encoding indent line_endings : option pv) (keep_bytes : bool)
   : content_result :=
-  let n := Z.to_nat (Z.min length_z sys_maxsize) in
+  (* fp.read(min(length, sys.maxsize)); the further min with the bytes available only keeps the unary nat small *)
+  let avail := Z.of_nat (length (remaining (st_stream st))) in
+  let n := Z.to_nat (Z.min (Z.min length_z sys_maxsize) avail) in
   let (content, s1) := sread n (st_stream st) in
   let ln := st_linenum st in
   if is_nil content then CParse (ln - 1)%Z else
